@@ -74,6 +74,9 @@ type Outcome struct {
 	Warnings           []string
 	Payload            map[string][]byte
 	Tracing            bool
+	// RawErrorBody, when set on an uncompressed connection, is written as the body of an ERROR frame as it stands (an
+	// error of the outcome's class that the protocol library used by the proxy cannot decode)
+	RawErrorBody []byte
 }
 
 // Attempt is one request frame received by a node.
@@ -374,6 +377,7 @@ func (c *Cluster) PrepareDirect(keyspace, query string) []byte {
 		n.mu.Lock()
 		n.prepared[hex.EncodeToString(id)] = prepared{Query: query, Keyspace: keyspace}
 		n.mu.Unlock()
+		everPrepared.Store(hex.EncodeToString(id), query)
 	}
 	return id
 }
@@ -813,6 +817,7 @@ func (cn *Conn) handlePrepare(a *Attempt, m *message.Prepare) {
 	id := PreparedID(ks, m.Query)
 	cn.N.mu.Lock()
 	cn.N.prepared[hex.EncodeToString(id)] = prepared{Query: m.Query, Keyspace: ks}
+	everPrepared.Store(hex.EncodeToString(id), m.Query)
 	cn.N.mu.Unlock()
 	rm := &message.RowsMetadata{ColumnCount: 0}
 	if strings.HasPrefix(strings.ToUpper(strings.TrimSpace(m.Query)), "SELECT") && c.WidePrepared {
@@ -832,9 +837,42 @@ func (cn *Conn) handlePrepare(a *Attempt, m *message.Prepare) {
 	cn.respond(a, out)
 }
 
+// everPrepared: id -> statement text, for every statement any node was ever asked to prepare (nodes forget, this does not)
+var everPrepared sync.Map
+
+// consistencyOf returns the consistency level a data request carries (-1: none) and whether it is a SELECT as far as
+// the backend can tell (text of a QUERY, text behind the id of an EXECUTE).
+func consistencyOf(a *Attempt) (cl int, sel bool) {
+	cl = -1
+	if a.Frame == nil || a.Frame.Body == nil {
+		return
+	}
+	isSel := func(q string) bool { return strings.HasPrefix(strings.ToUpper(strings.TrimSpace(q)), "SELECT") }
+	switch m := a.Frame.Body.Message.(type) {
+	case *message.Query:
+		if m.Options != nil {
+			cl = int(m.Options.Consistency)
+		}
+		sel = isSel(m.Query)
+	case *message.Execute:
+		if m.Options != nil {
+			cl = int(m.Options.Consistency)
+		}
+		if q, ok := everPrepared.Load(hex.EncodeToString(m.QueryId)); ok {
+			sel = isSel(q.(string))
+		} else {
+			sel = true // unknown statement: nothing is claimed about it
+		}
+	case *message.Batch:
+		cl = int(m.Consistency)
+	}
+	return
+}
+
 func (c *Cluster) record(a *Attempt, op string, outcome string) bool {
+	cl, sel := consistencyOf(a)
 	if !a.Conn.emitIfOpen("BackendRecv", "b", a.Conn.ID, "host", a.Node.IP, "bstream", int(a.Header.StreamId), "op", op,
-		"t", a.Token, "att", a.N, "ks", a.Conn.Keyspace, "ver", int(a.Conn.Version), "comp", a.Conn.Compression, "o", outcome) {
+		"t", a.Token, "att", a.N, "ks", a.Conn.Keyspace, "ver", int(a.Conn.Version), "comp", a.Conn.Compression, "o", outcome, "cl", cl, "sel", sel) {
 		return false
 	}
 	if c.KeepLog {
@@ -969,6 +1007,23 @@ func (cn *Conn) sendKind(a *Attempt, out Outcome) {
 		cn.wmu.Lock()
 		cn.nc.Write(out.Raw)
 		cn.wmu.Unlock()
+		return
+	}
+	if out.RawErrorBody != nil && cn.compressor == nil {
+		hs := sha256.New()
+		hs.Write([]byte{0, byte(primitive.OpCodeError)})
+		hs.Write(out.RawErrorBody)
+		if !cn.emitIfOpen("BackendReply", "b", cn.ID, "host", cn.N.IP, "bstream", int(a.Header.StreamId), "t", a.Token, "o", out.Kind, "h", hex.EncodeToString(hs.Sum(nil))[:16]) {
+			return
+		}
+		raw := &frame.RawFrame{Header: &frame.Header{IsResponse: true, Version: a.Header.Version, StreamId: a.Header.StreamId, OpCode: primitive.OpCodeError,
+			BodyLength: int32(len(out.RawErrorBody))}, Body: out.RawErrorBody}
+		var buf bytes.Buffer
+		if err := frame.NewRawCodec().EncodeRawFrame(raw, &buf); err == nil {
+			cn.wmu.Lock()
+			cn.nc.Write(buf.Bytes())
+			cn.wmu.Unlock()
+		}
 		return
 	}
 	msg := BuildMessage(a, out)
